@@ -372,6 +372,10 @@ def run(pm, ctx):
     run_decisions(pm, ctx, 'C19-RD', OWN['C19'])
     from .. import exprdrift
     exprdrift.run(pm, ctx, 'C19-RE', OWN['C19'])
+    from ..conddrift import run_calls
+    run_calls(pm, ctx, 'C19-RC', OWN['C19'])
+    from .. import memo
+    memo.run(pm, ctx, 'C19-MK', OWN['C19'])
 
 
 def _site(pi, n):
